@@ -497,10 +497,45 @@ def run_greenback(ctx):
     tape = ctx.tape
     depth = tape.choose(4)
     inside = tape.choose(2) == 1
-    ctx.case = {"alternation_depth": depth, "from_inside": inside}
+    # how the task gets its portal, and through which of greenback's bridges each level goes
+    # from synchronous code into a coroutine (all drawn before the Trio run starts)
+    portal = ("ensure", "run", "run_sync", "run_tree")[tape.weighted([3, 1, 1, 1])]
+    bridges = [("await_", "autoawait", "async_context", "async_iter")[tape.weighted([3, 1, 1, 1])] for _ in range(depth + 1)]
+    ctx.case = {"alternation_depth": depth, "from_inside": inside, "portal": portal, "bridges": bridges}
     never = None
     result = {}
     shadow = []
+    import contextlib
+
+    @contextlib.asynccontextmanager
+    async def via_cm(afn, *args):
+        shadow.append(sys._getframe(0))
+        try:
+            await afn(*args)
+            yield 0
+        finally:
+            shadow.pop()
+
+    async def via_agen(afn, *args):
+        shadow.append(sys._getframe(0))
+        try:
+            await afn(*args)
+            yield 0
+        finally:
+            shadow.pop()
+
+    def bridge(d, afn, *args):
+        kind = bridges[d]
+        if kind == "await_":
+            return greenback.await_(afn(*args))
+        if kind == "autoawait":
+            return greenback.autoawait(afn)(*args)
+        if kind == "async_context":
+            with greenback.async_context(via_cm(afn, *args)):
+                return None
+        for _ in greenback.async_iter(via_agen(afn, *args)):
+            pass
+        return None
 
     def sync_level(d):
         shadow.append(sys._getframe(0))
@@ -514,8 +549,8 @@ def run_greenback(ctx):
                         ctx.in_sut(False)
                     result["shadow"] = list(shadow) + [sys._getframe(0)][:0]
                     return None
-                return greenback.await_(bottom())
-            return greenback.await_(async_level(d - 1))
+                return bridge(0, bottom)
+            return bridge(d, async_level, d - 1)
         finally:
             shadow.pop()
 
@@ -533,15 +568,32 @@ def run_greenback(ctx):
         finally:
             shadow.pop()
 
-    async def task_fn():
+    async def portal_body():
         shadow.append(sys._getframe(0))
         try:
-            result["task"] = trio.lowlevel.current_task()
-            await greenback.ensure_portal()
             if depth == 0 and not inside:
                 await never.wait()
             else:
                 sync_level(depth)
+        finally:
+            shadow.pop()
+
+    async def task_fn():
+        shadow.append(sys._getframe(0))
+        try:
+            result["task"] = trio.lowlevel.current_task()
+            if portal == "ensure":
+                await greenback.ensure_portal()
+                if depth == 0 and not inside:
+                    await never.wait()
+                else:
+                    sync_level(depth)
+            elif portal == "run":
+                await greenback.with_portal_run(portal_body)
+            elif portal == "run_tree":
+                await greenback.with_portal_run_tree(portal_body)
+            else:
+                await greenback.with_portal_run_sync(sync_level, depth)
         finally:
             shadow.pop()
 
@@ -587,10 +639,10 @@ def run_greenback(ctx):
         mod = f.modname or ""
         # the bridge itself: trampoline / _greenback_shim / await_ (the repository's own
         # test expects greenback_shim and adapt_awaitable to stay visible)
-        if mod.startswith("greenback") and f.funcname in ("trampoline", "_greenback_shim", "await_") and not f.hide:
+        if mod.startswith("greenback") and f.funcname in ("trampoline", "_greenback_shim", "_greenback_shim_sync", "await_") and not f.hide:
             raise Violation("c15_greenback_internal_visible", "greenback internal frame %s.%s is not hidden" % (mod, f.funcname), ctx.case)
         if any(f.pyframe is s for s in sh) and f.hide:
             raise Violation("c15_greenback_world_hidden", "world frame %s hidden" % f.funcname, ctx.case)
-    ctx.cover(("gback", depth, inside))
-    ctx.log("gback", depth, inside, len(st.frames))
+    ctx.cover(("gback", depth, inside, portal, tuple(bridges)))
+    ctx.log("gback", depth, inside, portal, tuple(bridges), len(st.frames))
     ctx.sample = ctx.case
